@@ -126,6 +126,7 @@ def recording(fuzz=None):
 
     t = Trace()
     saved = []
+    fuzz_cluster = isinstance(fuzz, str) and fuzz.endswith('+cluster')
 
     def patch(obj, name, new):
         if not hasattr(obj, name):
@@ -145,6 +146,29 @@ def recording(fuzz=None):
                               'error': type(e).__name__})
             raise
         rec = {'pts': np.array(data, dtype=float).copy(), 'kwargs': dict(kwargs), 'algo': algo}
+        if out is not None and fuzz is not None and fuzz_cluster and len(out[1]) >= 2:
+            # a distorted but well-shaped answer: one label per point, labels 0..k-1, k reported
+            import hashlib
+            import random as _r
+            r = _r.Random(hashlib.sha1(rec['pts'].tobytes() + f'{fuzz}:cluster'.encode()).hexdigest())
+            lab = np.array(out[1]).copy()
+            k = int(lab.max()) + 1
+            mode = r.choice(['permute', 'merge', 'split', 'split', 'asis'])
+            if mode == 'merge' and k >= 2:
+                a, b = r.sample(range(k), 2)
+                lab[lab == b] = a
+            elif mode == 'split':
+                a = r.randrange(k)
+                idx = [i for i in range(len(lab)) if lab[i] == a]
+                if len(idx) >= 2:
+                    for i in r.sample(idx, r.randint(1, len(idx) - 1)):
+                        lab[i] = k
+            # contiguous labels in a random numbering
+            olds = sorted(set(int(v) for v in lab))
+            news = list(range(len(olds))); r.shuffle(news)
+            m = dict(zip(olds, news))
+            lab = np.array([m[int(v)] for v in lab], dtype=np.array(out[1]).dtype)
+            out = (len(olds), lab)
         if out is not None:
             rec['nlabels'], rec['labels'] = int(out[0]), np.array(out[1]).copy()
         t.cluster.append(rec)
